@@ -4,6 +4,7 @@ C11 — operator results do not depend on the cost model.
 import ClvmProofs.Lemmas.Interp.ModelIndep
 import ClvmProofs.Lemmas.Interp.LiftModel
 import ClvmProofs.Lemmas.Interp.ModelGuard
+import ClvmProofs.Lemmas.Interp.LiftCrypto
 
 namespace Clvm.Props.C11
 open Clvm Clvm.Interp
@@ -72,5 +73,17 @@ theorem whole_program_value_model (cfg : Cfg) (extra : String → Option OpFn)
     (h2 : runProgram cfg (chiaDialect cfg extra (F ||| Gen.FLAG_NEW_COST_MODEL)) fuel2 c0 p e M2 = some (.ok r2)) :
     r1.2 = r2.2 :=
   eval_value_model cfg extra hmi hre hwf F hF hp he h1 h2
+
+
+/-- **The dialect the crate ships** (all operators): a program that succeeds under both cost models
+returns the same value and leaves the same counters — no hypothesis on operators, no flag
+restriction beyond "F is an old-model flag set". -/
+theorem chia_value_model (cfg : Cfg) (F : Nat) (hF : hasFlag F Gen.FLAG_NEW_COST_MODEL = false)
+    {fuel1 fuel2 : Nat} {c0 : Ctr} {p e : Val} {M1 M2 : Nat} (hp : p.wf = true) (he : e.wf = true)
+    {r1 r2 : Nat × Val × Ctr}
+    (h1 : runProgram cfg (chiaDialect cfg cryptoExtra F) fuel1 c0 p e M1 = some (.ok r1))
+    (h2 : runProgram cfg (chiaDialect cfg cryptoExtra (F ||| Gen.FLAG_NEW_COST_MODEL)) fuel2 c0 p e M2 = some (.ok r2)) :
+    r1.2 = r2.2 :=
+  whole_program_value_model cfg cryptoExtra cryptoExtra_modelIndep cryptoExtra_restrict cryptoExtra_wf F hF hp he h1 h2
 
 end Clvm.Props.C11
